@@ -221,11 +221,12 @@ func checkC08(p *Prog, r *Report) {
 					rPerm.OK(cc+":perm", posOf(i), "%#o", k)
 				}
 			}
-			if "os.Create" == name || "os.CreateTemp" == name {
+			if "os.Create" == name {
 				rPerm.Bad(cc+":perm", posOf(i), "%s creates files with mode 0666", name)
 			}
 		})
 	}
+	checkC08Outside(p, r, rPerm)
 	if 0 == n {
 		rWrite.Bad("SaveCertificate:callers", save.Pos(), "a generated certificate is never saved: every start would serve a new key")
 	}
@@ -606,4 +607,70 @@ func errorSources(e ssa.Value, depth int) []errSource {
 var cacheWriters = map[string]bool{
 	"os.WriteFile": true, "os.Create": true, "os.OpenFile": true, "os.Rename": true, "os.Remove": true, "os.RemoveAll": true,
 	"os.Mkdir": true, "os.MkdirAll": true, "os.Chmod": true, "os.Truncate": true, "io/ioutil.WriteFile": true, "os.CreateTemp": true, "os.Symlink": true, "os.Link": true,
+}
+
+
+// checkC08Outside: outside sstls, too, nothing makes the cache's directories
+// with wider permissions.  A caller which prepares the place beforehand
+// (a pre-flight check which creates missing parents) decides the mode of
+// those directories: SaveCertificate's own MkdirAll then finds them made.
+func checkC08Outside(p *Prog, r *Report, ru *Rule) {
+	isPathFn := func(n string) bool { return strings.HasPrefix(n, "path/filepath.") || strings.HasPrefix(n, "strings.Trim") }
+	for _, top := range p.Funcs() {
+		if nil == top.Pkg || nil != top.Parent() || strings.HasSuffix(top.Pkg.Pkg.Path(), "/"+sstlsPkg) {
+			continue
+		}
+		/* What this function hands sstls as the cache file's name. */
+		certRoots := map[ssa.Value]bool{}
+		for _, fn := range withAnons(top) {
+			eachInstr(fn, func(i ssa.Instruction) {
+				c := callCommon(i)
+				if nil == c || nil == c.StaticCallee() || nil == c.StaticCallee().Pkg || !strings.HasSuffix(c.StaticCallee().Pkg.Pkg.Path(), "/"+sstlsPkg) {
+					return
+				}
+				for k, pa := range c.StaticCallee().Params {
+					if "certFile" != pa.Name() || k >= len(c.Args) {
+						continue
+					}
+					for _, x := range valueRoots(c.Args[k], isPathFn) {
+						if nil != x.V {
+							certRoots[x.V] = true
+						}
+					}
+				}
+			})
+		}
+		if 0 == len(certRoots) {
+			continue
+		}
+		for _, fn := range withAnons(top) {
+			eachInstr(fn, func(i ssa.Instruction) {
+				c := callCommon(i)
+				if nil == c {
+					return
+				}
+				name := calleeName(c)
+				if "os.Mkdir" != name && "os.MkdirAll" != name && "os.Chmod" != name {
+					return
+				}
+				related := false
+				for _, x := range valueRoots(c.Args[0], isPathFn) {
+					if nil != x.V && certRoots[x.V] {
+						related = true
+					}
+				}
+				if !related {
+					return
+				}
+				cc := fmt.Sprintf("%s→%s:perm", fnName(fn), name)
+				if k, ok := constInt(c.Args[1]); !ok {
+					ru.Unproven(cc, posOf(i), "permission bits are not constant")
+				} else if 0 != k&0o077 {
+					ru.Bad(cc, posOf(i), "a directory on the way to the certificate cache is made with permission %#o before sstls gets to it: the private key's directory is open to group/others", k)
+				} else {
+					ru.OK(cc, posOf(i), "%#o", k)
+				}
+			})
+		}
+	}
 }
